@@ -59,3 +59,12 @@ def qmodules(model):
     from optimum.quanto import QModuleMixin
 
     return [(n, m) for n, m in model.named_modules() if isinstance(m, QModuleMixin)]
+
+
+def quantized_probe(name, dtname, aname):
+    """A per-tensor quantized input built with the library's own qtype object and a scale of its own."""
+    from optimum.quanto import quantize_activation
+
+    x = probe_input(name, dtname, 2)
+    scale = (x.abs().max().to(torch.float64) * 1.3 / num.float8.QMAX[aname]).to(num.DTYPES[dtname])
+    return quantize_activation(x, num.qt(aname), scale)
